@@ -4,7 +4,7 @@ from lib import core
 
 ID = 'C03'
 UNITS = ['chord_segmentation', 'chord_evaluate', 'hier_measures', 'melody_resample', 'beat_q']
-TRANSLATORS = ['evaluate']
+TRANSLATORS = ['evaluate', 'wrapfuncs', 'wrapfuncs2']
 NOT_COVERED = ('that Python creates a fresh dict for **kwargs on every call (language semantics); what the metric functions compute '
                '(their denotation is a Section variable of the soundness theorem); separation.evaluate is interpreted on one small input only')
 ASSUMPTIONS = ['util.filter_kwargs / has_kwargs behave as modelled: pass everything to a callee with **kwargs, else restrict to co_varnames[:co_argcount]']
